@@ -35,6 +35,10 @@ pub enum Op {
   /// rwlock only: with a read guard held and a writer queued, run n generations of
   /// "a new reader arrives, then the oldest reader leaves"
   ReaderStream(u8),
+  /// the same stream with wait-queue churn in every generation (bit 0: a reader that queued
+  /// behind the writer gives up; bit 1: a second reader queues and gives up at once; bit 2: a
+  /// try_read is attempted; bit 3: a second writer queues and gives up)
+  ReaderStreamChurn(u8, u8),
 }
 
 #[derive(Clone, Debug, Serialize, Deserialize)]
@@ -59,6 +63,7 @@ pub fn scenario_strategy(max_ops: usize) -> BoxedStrategy<Scenario> {
     3 => h.prop_map(Op::CancelWoken),
     3 => Just(Op::Checkpoint),
     2 => (3u8..12).prop_map(Op::ReaderStream),
+    3 => (3u8..12, 1u8..16).prop_map(|(n, c)| Op::ReaderStreamChurn(n, c)),
   ];
   (any::<bool>(), proptest::collection::vec(op, 1..max_ops)).prop_map(|(rwlock, ops)| Scenario { rwlock, ops }).boxed()
 }
@@ -266,7 +271,7 @@ impl Run {
   /// generations of "new reader arrives; the oldest reader leaves; deliver wakes".  A writer
   /// that is kept out for more generations than there were readers to begin with (+2) is being
   /// starved by the stream.
-  fn reader_stream(&mut self, n: usize) -> R {
+  fn reader_stream(&mut self, n: usize, churn: u8) -> R {
     if !self.rw {
       return Ok(());
     }
@@ -286,10 +291,34 @@ impl Run {
       return Ok(());
     }
     let writer = Arc::as_ptr(&self.tasks[0].waker);
-    self.rep.class("reader_stream");
+    self.rep.class(if churn == 0 { "reader_stream" } else { "reader_stream_with_queue_churn" });
     let bound = 1 + 2;
     for generation in 0..n {
       self.spawn(false)?; // a new reader arrives (acquires or queues)
+      // queue churn while the writer waits: waiters link and unlink around it ("dropping a
+      // pending lock future neither corrupts the wait queue ...")
+      if churn & 1 != 0 {
+        if let Some(i) = self.tasks.iter().rposition(|t| !t.exclusive && Arc::as_ptr(&t.waker) != writer) {
+          self.cancel(i);
+        }
+      }
+      if churn & 2 != 0 {
+        let before = self.tasks.len();
+        self.spawn(false)?;
+        if self.tasks.len() > before {
+          self.cancel(before);
+        }
+      }
+      if churn & 4 != 0 {
+        self.step(&Op::TryShared)?;
+      }
+      if churn & 8 != 0 {
+        let before = self.tasks.len();
+        self.spawn(true)?;
+        if self.tasks.len() > before {
+          self.cancel(before);
+        }
+      }
       // the oldest reader leaves
       if let Some(k) = self.held.iter().position(|(_, ex)| !*ex) {
         self.release(k);
@@ -361,7 +390,8 @@ impl Run {
         Ok(())
       }
       Op::Checkpoint => self.checkpoint(),
-      Op::ReaderStream(n) => self.reader_stream(*n as usize),
+      Op::ReaderStream(n) => self.reader_stream(*n as usize, 0),
+      Op::ReaderStreamChurn(n, c) => self.reader_stream(*n as usize, *c),
       _ => Ok(()),
     }
   }
